@@ -1678,8 +1678,9 @@ impl<'input, T: Input> Scanner<'input, T> {
         let mut eof_in_content_line = false;
         while self.mark.col == indent && !self.input.next_is_z() {
             if indent == 0 {
+                // A document marker (`---` as well as `...`) ends a non-indented scalar.
                 self.input.lookahead(4);
-                if self.input.next_is_document_end() {
+                if self.input.next_is_document_indicator() {
                     break;
                 }
             }
